@@ -180,6 +180,64 @@ def multi_base_matrix():
                            "masks": list(range(1 << len(cids))), "target_kind": kind, "matrix": [kind, is_async, b1, b2, child]}
 
 
+def diamond_matrix():
+    """Enumerated diamonds K3(K1, K2) over a common base K0 that provides the member: the left arm {inherits, overrides},
+    the right arm {inherits, overrides, overrides with an own precondition}, the bottom {inherits, overrides}; invariants
+    {none, on the root, on the root and one more on the left arm} (with invariants every class wraps its members, and an
+    arm that merely inherits must not shadow the other arm's override); x member kind x sync/async. One instance and one
+    operation per class."""
+    from vf.progmodel import gen as G
+
+    kinds = [("method", False), ("method", True), ("getter", False), ("setter", False), ("deleter", False)]
+    for kind, is_async in kinds:
+        for root in ("pre", "nopre"):
+            for left in ("inherit", "override"):
+                for right in ("inherit", "override", "override+pre"):
+                    for bottom in ("inherit", "override"):
+                        for invs in ("none", "root", "root+left"):
+                            ids = G.Ids()
+                            name = "p" if kind in ("getter", "setter", "deleter") else "m"
+
+                            def members(mode):
+                                if mode == "inherit":
+                                    return []
+                                params, defaults = G.params_of(kind)
+                                decos = [{"t": "ensure", "cid": ids.cid(), "args": [], "lam": False, "err": {"form": "default"}}]
+                                if mode in ("pre", "override+pre"):
+                                    decos.append({"t": "require", "cid": ids.cid(), "args": [], "lam": False,
+                                                  "err": {"form": "default"}})
+                                f = {"name": name, "kind": kind, "async": is_async, "params": params, "defaults": defaults,
+                                     "decos": decos, "body": {"ret": "obj"}}
+                                if kind in ("setter", "deleter"):
+                                    return [{"name": name, "kind": "getter", "async": False, "params": [], "defaults": {},
+                                             "decos": [], "body": {"ret": "obj"}}, f]
+                                return [f]
+
+                            def inv():
+                                return {"cid": ids.cid(), "on": "CALL", "lam": False, "selfarg": True, "err": {"form": "default"}}
+
+                            classes = [
+                                {"name": "K0", "bases": [], "root": "DBC", "shape": "plain", "members": members(root),
+                                 "invs": [inv()] if invs != "none" else []},
+                                {"name": "K1", "bases": [0], "root": "DBC", "shape": "plain", "members": members(left),
+                                 "invs": [inv()] if invs == "root+left" else []},
+                                {"name": "K2", "bases": [0], "root": "DBC", "shape": "plain", "members": members(right), "invs": []},
+                                {"name": "K3", "bases": [1, 2], "root": "DBC", "shape": "plain", "members": members(bottom),
+                                 "invs": []}]
+                            prog = {"funcs": [], "classes": classes}
+                            ops = []
+                            for ci in range(4):
+                                ops.append({"op": "new", "cls": ci, "k": ci, "args": {}})
+                                args = {"value": "a:v"} if kind == "setter" else ({} if kind in ("getter", "deleter") else {"x": "a:x"})
+                                ops.append(G.op_for_member(kind, ci, name, args))
+                            cids = D.all_cids(prog)
+                            n = len(cids)
+                            masks = list(range(1 << n)) if n <= 4 else sorted({(1 << n) - 1, 0} | {(1 << n) - 1 - (1 << i) for i in range(n)} |
+                                                                               {(0x9E3779B1 * (j + 1)) % (1 << n) for j in range(8)})
+                            yield {"program": prog, "ops": ops, "codes": {c: ("T", "F") for c in cids}, "masks": masks,
+                                   "target_kind": kind, "matrix": ["diamond", kind, is_async, root, left, right, bottom, invs]}
+
+
 def gap_matrix():
     """Enumerated: an ancestor provides the member {with, without} a precondition, 1..2 intermediate classes do not
     define it, the last class {overrides, overrides with an own precondition, inherits}; x member kind x sync/async; a
@@ -259,6 +317,11 @@ def run(ctx, tier, seed, shard, nshards):
         for case in gap_matrix():
             D.run_one(ctx, case, judge, exclude=exclude, nontrivial=nontrivial)
         ctx.count("gap_matrix_cells", 7 * 12)
+        n = 0
+        for case in diamond_matrix():
+            D.run_one(ctx, case, judge, exclude=exclude, nontrivial=nontrivial)
+            n += 1
+        ctx.count("diamond_matrix_cells", n)
         # an instance of a sub-class satisfies the invariants of ALL its ancestors: C03's enumeration of invariant
         # orders (call / attribute-set / both, one or two bases, a sub-class without own invariants adding members)
         from vf.props import c03
